@@ -12,8 +12,10 @@ import Tahoe.Base.Merkle
       new <numleaves>                                                    -> <first_leaf_num> <tree>
       needed <first> <leafnum> <0|1> <tree>                              -> sorted list | err
       hist <asis|fixed> <numleaves> <call> <call> …   call = <prio>|<hashes>|<leaves>, hashes/leaves = i=t,i=t,… or -
-           prio = order in which set.pop() prefers indices (comma list or -)
-           -> per call  <ok|bad|notenough|index|internal>:<tree>  joined by `;` (the tree after the call) -/
+           keys i are Python ints (negative / too large allowed); prio = order in which set.pop() prefers
+           indices (comma list or -); outcome `reject` = a negative key was red-dotted (rejected with
+           IndexError/BadHashError/NotEnoughHashesError depending on the pop order, rolled back)
+           -> per call  <ok|bad|notenough|index|internal|reject>:<tree>  joined by `;` (the tree after the call) -/
 open Tahoe.Drv Tahoe.Base.Merkle
 
 /-- parse one term; fuel = remaining input length -/
@@ -60,10 +62,10 @@ def parseTree (s : String) : Option (Tree Sym) :=
 def parseTerms (s : String) : Option (List Sym) :=
   if s == "-" then some [] else (s.splitOn ",").mapM termOfString
 
-def parseAssoc (s : String) : Option (List (Nat × Sym)) :=
+def parseAssoc (s : String) : Option (List (Int × Sym)) :=
   if s == "-" then some [] else
   (s.splitOn ",").mapM (fun x => match x.splitOn "=" with
-    | [i, t] => do pure ((← i.toNat?), (← termOfString t))
+    | [i, t] => do pure ((← i.toInt?), (← termOfString t))
     | _ => none)
 
 def showOptNat : Option Nat → String
@@ -86,13 +88,16 @@ def showOutcome : Outcome → String
 def pickOf (prio : List Nat) (this : List Nat) : Nat :=
   ((prio.filter (fun x => this.contains x)).head?).getD (this.headD 0)
 
-def runCall (cfg : Cfg) (first : Nat) (t : Tree Sym) (call : String) : Option (Outcome × Tree Sym) :=
+def showBatchOutcome : BatchOutcome → String
+  | .ok => "ok" | .err o => showOutcome o | .unvalidatable => "reject"
+
+def runCall (cfg : Cfg) (first : Nat) (t : Tree Sym) (call : String) : Option (BatchOutcome × Tree Sym) :=
   match call.splitOn "|" with
   | [p, h, l] => do
     let prio ← parseNatList p
     let hs ← parseAssoc h
     let ls ← parseAssoc l
-    pure (setHashes symOps cfg (pickOf prio) first t hs ls)
+    pure (setHashesZ symOps cfg (pickOf prio) first t hs ls)
   | _ => none
 
 def runHist (cfg : Cfg) (first : Nat) (t : Tree Sym) (acc : List String) : List String → Option (List String)
@@ -100,7 +105,7 @@ def runHist (cfg : Cfg) (first : Nat) (t : Tree Sym) (acc : List String) : List 
   | c :: rest =>
     match runCall cfg first t c with
     | none => none
-    | some (o, t') => runHist cfg first t' ((showOutcome o ++ ":" ++ showTree t') :: acc) rest
+    | some (o, t') => runHist cfg first t' ((showBatchOutcome o ++ ":" ++ showTree t') :: acc) rest
 
 def parseBool (s : String) : Option Bool :=
   if s == "0" then some false else if s == "1" then some true else none
